@@ -2967,6 +2967,15 @@ class BaseInterpreter(Generic[TContext, TEvent]):
         Args:
             state (StateNode): The state being entered.
         """
+        # 🛑 A stopped interpreter owns nothing. `stop()` may be called from
+        #    inside a macrostep (an action that shuts its own machine down);
+        #    the transition in flight still runs to its end, and arming the
+        #    timers and services of the states it enters would create tasks
+        #    after `stop()` has released everything - tasks no later `stop()`
+        #    (a no-op by then) would ever cancel.
+        if self.status == "stopped":
+            return
+
         # 🕒 Schedule `after` timers.
         activation = self._timer_activation.get(state.id, 0) + 1
         if state.after:
